@@ -1,4 +1,100 @@
+//! C18 — CL03 keys and parameters are well formed and survive their encodings. Configurations are enumerated
+//! exhaustively (suite x n_attributes 0..=5 x modulus source); key draws are samples of the real generator and are
+//! labelled so. Structure facts are checked by the independent Python/sympy checker (no GMP).
+#![allow(non_snake_case)]
 use crate::common::*;
-use zkryptium::cl03::keys::{CL03PublicKey, CL03SecretKey};
+use crate::indep;
+use mccore::{par_for, O};
+use rug::Integer;
+use serde_json::{json, Value};
+use zkryptium::cl03::bases::Bases;
+use zkryptium::cl03::keys::{verif_hooks, CL03CommitmentPublicKey, CL03PublicKey, CL03SecretKey};
+use zkryptium::keys::pair::KeyPair;
 use zkryptium::schemes::algorithms::{Scheme, CL03};
-pub fn run<CS: Suite>(_env: &Env) where CL03<CS>: Scheme<PubKey = CL03PublicKey, PrivKey = CL03SecretKey>, CS::HashAlg: sha2::Digest {}
+use zkryptium::schemes::generics::Signature;
+use zkryptium::utils::random::{rand_int, random_bits, random_number, random_qr};
+
+pub fn run<CS: Suite>(env: &Env)
+where CL03<CS>: Scheme<PubKey = CL03PublicKey, PrivKey = CL03SecretKey, Ciphersuite = CS>, CS::HashAlg: sha2::Digest {
+    let nkeys = match (CS::NAME, env.thorough()) { ("CL1024", false) => 3, ("CL1024", true) => 20, ("CL2048", _) => 3, _ => 1 };
+    env.ctx.set_rule("configurations (exhaustive): suite x n_attributes in 0..=5 x commitment-key modulus source {issuer modulus, own modulus}; per suite K freshly generated key pairs (SAMPLED draws: CL1024 x 3 quick / x 20 thorough, CL2048 x 3, CL3072 x 1). Checked with Python integers + sympy: N = p*q, p != q, p, q, (p-1)/2, (q-1)/2 prime, |p| = |q| = SECPARAM+1; for x in {b, c, a_i, h, g_i}: 1 < x < N, gcd(x,N) = 1, Jacobi(x,p) = Jacobi(x,q) = 1; h generates QR_N (h^p' != 1 != h^q'), hence g_i in <h>; own-modulus factors via the verif_hooks feature. Codecs: to_bytes/from_bytes and serde round trips for pk, sk, key pair, bases, commitment keys, signatures. random_bits(n) for EVERY n in 1..=64 and {256,258,1024,1536} x 50 draws: bit n-1 set, nothing above; rand_int(a,b) for all a in -3..=3, b-a in 0..=3 x 200 draws: in range and every value hit; random_number, random_qr. State = one checked fact; non-trivial = a generated object was tested by an independent computation.");
+    env.ctx.not_exhaustive("key draws are samples of a 2^512+ space; the configuration grid is exhaustive");
+    let items: std::sync::Mutex<Vec<Value>> = std::sync::Mutex::new(Vec::new());
+    let jobs: Vec<usize> = (0..nkeys).collect();
+    par_for(&jobs, |_, &k| {
+        let id = format!("{}/key{}", CS::NAME, k);
+        if !env.want(&id) || env.ctx.out_of_time() { return; }
+        let kp = match mccore::guard_val(|| KeyPair::<CL03<CS>>::generate()) { O::Ok(x) => x, o => { env.ctx.violation("C18:keygen-failed", &o.describe(), env.case(&id, json!({}))); return; } };
+        env.ctx.step();
+        // serde round trip of the key pair
+        let kj = to_json(&kp);
+        if from_json::<KeyPair<CL03<CS>>>(&kj).as_ref() != Some(&kp) { env.ctx.violation("C18:roundtrip:keypair-json", "serde round trip changes the key pair", env.case(&id, json!({}))); }
+        let (sk, pk) = kp.into_parts();
+        let hx = |x: &Integer| x.to_string_radix(16);
+        let mut push = |v: Value| items.lock().unwrap().push(v);
+        push(json!({"kind": "key", "root": id, "p": hx(&sk.p), "q": hx(&sk.q), "N": hx(&pk.N), "secparam": CS::SECPARAM}));
+        for (nm, x) in [("b", &pk.b), ("c", &pk.c)] { push(json!({"kind": "qr", "root": format!("{}/{}", id, nm), "x": hx(x), "N": hx(&pk.N), "p": hx(&sk.p), "q": hx(&sk.q)})); }
+        // codecs for keys
+        let pkb = mccore::guard_val(|| CL03PublicKey::from_bytes::<CL03<CS>>(&pk.to_bytes::<CL03<CS>>())); env.ctx.step();
+        if pkb.clone().ok().as_ref() != Some(&pk) { env.ctx.violation("C18:roundtrip:pk-bytes", &format!("from_bytes(to_bytes(pk)) != pk ({})", pkb.kind()), env.case(&id, json!({}))); }
+        let skb = mccore::guard_val(|| CL03SecretKey::from_bytes::<CL03<CS>>(&sk.to_bytes::<CL03<CS>>())); env.ctx.step();
+        if skb.clone().ok().as_ref() != Some(&sk) { env.ctx.violation("C18:roundtrip:sk-bytes", &format!("from_bytes(to_bytes(sk)) != sk ({})", skb.kind()), env.case(&id, json!({}))); }
+        if from_json::<CL03PublicKey>(&to_json(&pk)).as_ref() != Some(&pk) || from_json::<CL03SecretKey>(&to_json(&sk)).as_ref() != Some(&sk) { env.ctx.violation("C18:roundtrip:key-json", "serde round trip changes a key", env.case(&id, json!({}))); }
+        env.ctx.state(&[id.as_bytes(), b"key"]); env.ctx.class("key pair"); env.ctx.trace();
+        for n in 0..=5usize {
+            let cid = format!("{}/n_attributes={}", id, n);
+            env.ctx.state(&[cid.as_bytes()]);
+            let bases = Bases::generate(&pk, n); env.ctx.step();
+            if bases.0.len() != n { env.ctx.violation("C18:bases:count", &format!("Bases::generate({}) returned {} bases", n, bases.0.len()), env.case(&cid, json!({}))); }
+            for (i, a) in bases.0.iter().enumerate() { push(json!({"kind": "qr", "root": format!("{}/a_{}", cid, i), "x": hx(a), "N": hx(&pk.N), "p": hx(&sk.p), "q": hx(&sk.q)})); }
+            if from_json::<Bases>(&to_json(&bases)).map(|b| b.0) != Some(bases.0.clone()) { env.ctx.violation("C18:roundtrip:bases-json", "serde round trip changes the bases", env.case(&cid, json!({}))); }
+            for own in [false, true] {
+                if own && k > 0 && n != 1 { continue; } // own-modulus keys need two more safe primes each: all n for the first key, n = 1 for the others
+                let _ = verif_hooks::take_own_modulus_factors();
+                let cpk = CL03CommitmentPublicKey::generate::<CS>(if own { None } else { Some(pk.N.clone()) }, Some(n)); env.ctx.step();
+                let tag = format!("{}/commitment-key({})", cid, if own { "own modulus" } else { "issuer modulus" });
+                env.ctx.state(&[tag.as_bytes()]);
+                if cpk.g_bases.len() != n { env.ctx.violation("C18:commitment-key:count", &format!("generate(.., Some({})) returned {} bases", n, cpk.g_bases.len()), env.case(&tag, json!({}))); }
+                let (p, q) = if own { match verif_hooks::take_own_modulus_factors() { Some(f) => f, None => { env.ctx.note("hook H2 returned no factors: own-modulus structure not checked"); continue; } } } else { if cpk.N != pk.N { env.ctx.violation("C18:commitment-key:modulus", "commitment key does not use the supplied modulus", env.case(&tag, json!({}))); } (sk.p.clone(), sk.q.clone()) };
+                if own { push(json!({"kind": "mod", "root": tag, "p": hx(&p), "q": hx(&q), "N": hx(&cpk.N), "secparam": CS::SECPARAM})); }
+                push(json!({"kind": "qr", "root": format!("{}/h", tag), "x": hx(&cpk.h), "N": hx(&cpk.N), "p": hx(&p), "q": hx(&q)}));
+                push(json!({"kind": "gen", "root": format!("{}/h", tag), "h": hx(&cpk.h), "N": hx(&cpk.N), "p": hx(&p), "q": hx(&q)}));
+                for (i, g) in cpk.g_bases.iter().enumerate() { push(json!({"kind": "qr", "root": format!("{}/g_{}", tag, i), "x": hx(g), "N": hx(&cpk.N), "p": hx(&p), "q": hx(&q)})); }
+                if from_json::<CL03CommitmentPublicKey>(&to_json(&cpk)).as_ref() != Some(&cpk) { env.ctx.violation("C18:roundtrip:commitment-key-json", "serde round trip changes the commitment key", env.case(&tag, json!({}))); }
+                env.ctx.class(if own { "commitment key (own modulus)" } else { "commitment key (issuer modulus)" }); env.ctx.trace();
+            }
+            // a signature over n attributes survives its encodings
+            if n >= 1 {
+                let m = distinct_attrs(env.ctx.seed, "c18", n);
+                let sig = Signature::<CL03<CS>>::sign_multiattr(&pk, &sk, &bases, &msgs(&m)); env.ctx.step();
+                let rt = mccore::guard_val(|| Signature::<CL03<CS>>::from_bytes(&sig.to_bytes()));
+                if rt.ok().as_ref() != Some(&sig) || from_json::<Signature<CL03<CS>>>(&to_json(&sig)).as_ref() != Some(&sig) { env.ctx.violation("C18:roundtrip:signature", "signature does not survive bytes / JSON", env.case(&cid, json!({}))); }
+            }
+            env.ctx.class("configuration"); env.ctx.trace();
+        }
+        // random_qr / random_number on this modulus
+        for t in 0..8 { let x = random_qr(&pk.N); push(json!({"kind": "qr", "root": format!("{}/random_qr#{}", id, t), "x": hx(&x), "N": hx(&pk.N), "p": hx(&sk.p), "q": hx(&sk.q)})); let y = random_number(pk.N.clone()); env.ctx.steps(2); if y < 0 || y >= pk.N { env.ctx.violation("C18:random_number:range", "random_number(n) not in [0, n)", env.case(&id, json!({}))); } }
+    });
+    // random value helpers (suite independent; run once, with the first suite)
+    if CS::NAME == "CL1024" && env.want("random-helpers") {
+        let ns: Vec<u32> = (1..=64).chain([256, 258, 1024, 1536]).collect();
+        par_for(&ns, |_, &n| {
+            env.ctx.state(&[b"random_bits", &n.to_be_bytes()]);
+            let mut seen = std::collections::HashSet::new();
+            for _ in 0..50 { let x = random_bits(n); env.ctx.step(); seen.insert(x.to_string());
+                if x.significant_bits() != n { env.ctx.violation("C18:random_bits:length", &format!("random_bits({}) returned a {}-bit value", n, x.significant_bits()), env.case("random-helpers", json!({"n": n}))); } }
+            if n >= 16 && seen.len() < 45 { env.ctx.violation("C18:random_bits:repeats", &format!("random_bits({}) produced only {} distinct values in 50 draws", n, seen.len()), env.case("random-helpers", json!({"n": n}))); }
+            env.ctx.class("random_bits"); env.ctx.trace();
+        });
+        for a in -3i32..=3 { for w in 0..=3i32 {
+            env.ctx.state(&[b"rand_int", &a.to_be_bytes(), &w.to_be_bytes()]);
+            let mut hit = std::collections::BTreeSet::new();
+            for _ in 0..200 { let x = rand_int(Integer::from(a), Integer::from(a + w)); env.ctx.step(); if x < a || x > a + w { env.ctx.violation("C18:rand_int:range", &format!("rand_int({}, {}) returned {}", a, a + w, x), env.case("random-helpers", json!({"a": a, "b": a + w}))); } hit.insert(x.to_i32().unwrap_or(i32::MAX)); }
+            if hit.len() != (w + 1) as usize { env.ctx.violation("C18:rand_int:coverage", &format!("rand_int({}, {}) hit only {:?} in 200 draws", a, a + w, hit), env.case("random-helpers", json!({"a": a, "b": a + w}))); }
+            env.ctx.class("rand_int"); env.ctx.trace();
+        } }
+    }
+    let items = items.into_inner().unwrap();
+    if let Some(first) = items.iter().find(|x| x["kind"] == "gen") { let mut s = first.clone(); for k in ["h", "N", "p", "q"] { s[k] = json!("(elided)"); } env.ctx.sample(s); }
+    indep::check_primes(env, &items);
+}
